@@ -104,6 +104,11 @@ def run(name, props):
     rc, out = sh(["git", "-C", REPO, "apply", os.path.join(d, "patch.diff")])
     assert rc == 0, "patch does not apply: " + out
     results = {}
+    # evidence/<Cxx>.json and replays describe runs on the unchanged tree; keep the ones a seeded run would overwrite
+    keep = tempfile.mkdtemp(prefix="crv-seed-keep-")
+    for sub in ("evidence", "replays"):
+        if os.path.isdir(os.path.join(VERIF, sub)):
+            shutil.copytree(os.path.join(VERIF, sub), os.path.join(keep, sub))
     try:
         for p in props:
             t0 = time.time()
@@ -112,6 +117,11 @@ def run(name, props):
             results[p] = {"exit": rc, "lines": lines[:8], "wall_s": round(time.time() - t0, 1)}
     finally:
         sh(["git", "-C", REPO, "checkout", "--", "."])
+        for sub in ("evidence",):
+            if os.path.isdir(os.path.join(keep, sub)):
+                shutil.rmtree(os.path.join(VERIF, sub), ignore_errors=True)
+                shutil.copytree(os.path.join(keep, sub), os.path.join(VERIF, sub))
+        shutil.rmtree(keep, ignore_errors=True)
     rc, out = sh(["git", "-C", REPO, "status", "--porcelain"])
     assert out.strip() == "", "/repo not restored: " + out
     rp = os.path.join(d, "result.json")
